@@ -160,9 +160,9 @@ claim(
     "Contracts: DynCtx::eval_dyn for a method no clause mentions resolves default body > partial-by-default > fallback mode "
     "(strict: Err(NoMockImplementation), partial: Unmock) for all flag combinations [K-full, loop-free]; for a mentioned unordered "
     "method whose patterns all reject: strict -> Err(NoMatchingCallPatterns), partial -> Unmock, whatever the method's default-impl / "
-    "partial flags, and no counter changes; on a match exactly the selected pattern's counter is bumped [K-bnd].  The error kinds "
-    "are values, not fabricated returns: Eval::Return is produced only from a Return responder.",
-    trusted=["the generated match arms that turn a continuation into a call of the real function / default body / report() are macro output (not covered)", "BTreeMap::get isolation between methods (std)"],
+    "partial flags, and no counter changes; on a match exactly the selected pattern's counter is bumped [K-bnd].  eval_dyn's result type "
+    "has no value-carrying variant other than a Responder taken from the pattern list, so it cannot fabricate a return value.",
+    trusted=["eval::eval's mapping of the decision to Eval::Continue(.., inputs) is not covered (whole-eval harnesses exhaust CBMC)", "the generated match arms that turn a continuation into a call of the real function / default body / report() are macro output (not covered)", "BTreeMap::get isolation between methods (std)"],
 )
 
 claim(
